@@ -99,6 +99,7 @@ bounds_family("bounds_author_prefix", "bounds_author_prefix", ["C02", "C05"],
 bounds_family("bounds_author_key", "bounds_author_key", ["C05"], [(1, 1, "quick"), (1, 2, "quick"), (0, 1, "quick"), (0, 0, "quick"), (2, 2, "thorough")])
 # (candidate key len, bound key len)
 bounds_family("bounds_namespace", "bounds_namespace", ["C08", "C16", "C05"], [(1, 1, "quick"), (0, 1, "quick"), (1, 0, "quick"), (2, 1, "thorough")])
+bounds_family("bounds_clamp", "bounds_clamp", ["C08", "C01"], [(1, 1, "quick"), (0, 1, "quick"), (1, 0, "quick"), (2, 1, "thorough")])
 bounds_family("bounds_bykey", "bounds_bykey", ["C05", "C16"], [(0, 1, "quick"), (1, 1, "quick"), (1, 2, "quick"), (2, 1, "quick"), (3, 1, "quick"), (2, 2, "thorough")])
 
 # =============================================================================================
